@@ -27,6 +27,20 @@
 (*                                                                          *)
 (* TLC explores ALL interleavings of the episodes of every combo.            *)
 (*                                                                          *)
+(* How instances are generalised (decided in tools/props/C34.py):            *)
+(*  - a combo pairs episodes ON THE RECORDED INSTANCES: the episodes are     *)
+(*    projected onto the lock instances (addresses, pinned, never reused)    *)
+(*    they really shared, and "instance 1..n" are those addresses. This is   *)
+(*    precise: both goroutines existed, on those very objects.               *)
+(*  - thorough tier also adds, for a pair that nests two shared instances,   *)
+(*    every third episode that write-locks a shared RWMutex (the pending     *)
+(*    writer that turns two nested readers into a cycle).                    *)
+(*  - DIAGNOSTIC only (thorough): combos "cls" pair episode shapes that nest *)
+(*    two lock classes in opposite orders as if they had met on the same     *)
+(*    instances (renaming). They can predict impossible deadlocks, so they   *)
+(*    are only ever listed as unconfirmed unless reproduced on real          *)
+(*    goroutines.                                                            *)
+(*                                                                          *)
 (* Lock semantics (Go): a Mutex / a write lock is exclusive; RLock is shared; *)
 (* a goroutine that has called Lock and waits EXCLUDES NEW READERS           *)
 (* (sync.RWMutex: "a blocked Lock call excludes new readers from acquiring   *)
